@@ -286,6 +286,12 @@ func (fc *fnCtx) callSiteAsserts(st *State, callee *ssa.Function, ordKey string,
 }
 
 func (fc *fnCtx) siteAsserts(st *State, name, ordKey string, args []Val) {
+	if fc.top.countCalls[name] {
+		if st.calls == nil {
+			st.calls = map[string]string{}
+		}
+		st.calls[name] = fc.defs.Define("calls."+name, "Int", fmt.Sprintf("(+ %s 1)", st.callCount(name)))
+	}
 	k := fc.top.callOrd[name]
 	nth := 0
 	for ci, cs := range fc.contract.Calls {
